@@ -52,8 +52,11 @@ def full_runs(run, rnd):
             def fresh():
                 return copy.deepcopy(es0), copy.deepcopy(vs0)
 
-            def run_graph(es, vs, **kw):
+            def run_graph(es, vs, alias=False, **kw):
                 g = Graph(es, vs)
+                if alias:
+                    # a second Graph over the SAME Vertex objects, listed in another order, is built (never optimised) before the first one runs
+                    Graph(copy.deepcopy(es), vs[1:] + vs[:1])
                 with contextlib.redirect_stdout(io.StringIO()):
                     r = g.optimize(verbose=False, **kw)
                 return g, r
@@ -86,6 +89,8 @@ def full_runs(run, rnd):
             es_o, vs_o = copy.deepcopy(es), [Vertex(v.id, v.pose, fixed=v.fixed) for v in vs]
             run_graph(es_o, vs_o)
             variants.append(('shared-pose-objects', es, vs, {}, lambda i: i, 1.0))
+            es, vs = fresh()
+            variants.append(('shared-vertex-objects', es, vs, dict(alias=True), lambda i: i, 1.0))
             # an edge split into two halves
             es, vs = fresh()
             e0 = es[1]
